@@ -122,6 +122,20 @@ def standin_classical(tier, seed):
             fails.append(dict(args=dict(circuit=repr(c)), failed="classical-vs-matrices", clause=f"ClassicalStateSimulator measured {got}, the operation matrices give {want}"))
             if len(fails) >= 3:
                 break
+    # qutrit registers: the classical simulator either refuses the shift gate or moves the digit like the matrices do
+    t = cirq.LineQid(0, dimension=3)
+    X3 = cirq.XPowGate(dimension=3)
+    for e in (1, 2, 3, 4):
+        for start in (0, 1, 2):
+            c3 = cirq.Circuit([X3(t)] * start, X3(t) ** e, cirq.measure(t, key="m"))
+            cases += 1
+            try:
+                got3 = int(cirq.ClassicalStateSimulator().run(c3, repetitions=1).measurements["m"][0][0])
+            except (ValueError, TypeError):
+                continue  # refusing is fine
+            want3 = (start + e) % 3
+            if got3 != want3:
+                fails.append(dict(args=dict(circuit=repr(c3)), failed="classical-vs-matrices", clause=f"ClassicalStateSimulator measured {got3} on a qutrit, the shift gate's matrix gives {want3}"))
     return dict(function=F + ":ClassicalStateSimulator.run", case="vs-matrices",
                 bound="seeded circuits of <= 4 supported gates on random (permuted, non-adjacent) qubits of 3-5 wire registers, random X-prepared inputs",
                 cases=cases, distinct=len(distinct), failures=len(fails), exhaustive=False, _fails=fails[:3])
